@@ -185,10 +185,16 @@ func c06xValues() []interface{} {
 // C06XCase: an identity function over 1-3 catalogue types, supplied values and
 // converters by index, and the entry point.
 type C06XCase struct {
-	Types  []int  `json:"types"`
-	Inputs []int  `json:"inputs"`
-	Convs  []int  `json:"convs"`
-	Op     string `json:"op"` // call | convert | redefine
+	// Results > 0: instead of the identity function, a function with that many
+	// results of pairwise distinct types ([1]int, [2]int, ...), optionally
+	// followed by an error: the limits of reflect.FuncOf are the library's
+	// problem, not the caller's.
+	Results  int    `json:"results,omitempty"`
+	FinalErr bool   `json:"finalErr,omitempty"`
+	Types    []int  `json:"types"`
+	Inputs   []int  `json:"inputs"`
+	Convs    []int  `json:"convs"`
+	Op       string `json:"op"` // call | convert | redefine
 }
 
 func evalC06X(c *engine.Case) engine.Verdict {
@@ -197,6 +203,9 @@ func evalC06X(c *engine.Case) engine.Verdict {
 	if err := c.GetX(&x); err != nil {
 		v.Failf("bad case: %v", err)
 		return v
+	}
+	if x.Results > 0 {
+		return evalC06Many(&v, &x)
 	}
 	types, vals := c06xTypes(), c06xValues()
 	var ts []reflect.Type
@@ -259,7 +268,56 @@ func evalC06X(c *engine.Case) engine.Verdict {
 	return v
 }
 
+func evalC06Many(v *engine.Verdict, x *C06XCase) engine.Verdict {
+	v.Class("entry-exotic-many-results")
+	var outs []reflect.Type
+	for i := 1; i <= x.Results; i++ {
+		outs = append(outs, reflect.ArrayOf(i, reflect.TypeOf(0)))
+	}
+	if x.FinalErr {
+		outs = append(outs, errIface)
+	}
+	fn := reflect.MakeFunc(reflect.FuncOf(nil, outs, false), func([]reflect.Value) []reflect.Value {
+		r := make([]reflect.Value, len(outs))
+		for i, t := range outs {
+			r[i] = reflect.Zero(t)
+		}
+		return r
+	}).Interface()
+	var o engine.Outcome
+	engine.Protect(&o, func() {
+		f, err := argmapper.NewFunc(fn)
+		if err != nil {
+			v.Class("signature-rejected")
+			return
+		}
+		r := f.Call(engine.Quiet())
+		if r.Err() == nil && r.Len() != x.Results {
+			v.Failf("Len() = %d for a function with %d results", r.Len(), x.Results)
+		}
+		rf, err := f.Redefine(engine.Quiet())
+		if err == nil && rf != nil {
+			r2 := rf.Call(engine.Quiet())
+			_ = r2.Err()
+		}
+	})
+	if o.Panic != "" {
+		v.Failf("a function with %d results (final error: %v): %s", x.Results, x.FinalErr, o.Panic)
+	}
+	v.NonTrivial = true
+	return *v
+}
+
 func genC06X(g engine.G) *engine.Case {
+	if g.Pct(5) {
+		x := C06XCase{Results: engine.Pick(g, []int{1, 2, 50, 100, 125, 126, 127, 128}), FinalErr: g.Bool()}
+		if x.Results == 128 {
+			x.FinalErr = false // 129 results cannot be declared at all
+		}
+		c := &engine.Case{Note: "exotic", Reps: 1}
+		c.SetX(&x)
+		return c
+	}
 	nt := len(c06xTypes())
 	nv := len(c06xValues())
 	x := C06XCase{Op: engine.Pick(g, []string{"call", "call", "convert", "redefine"})}
